@@ -749,14 +749,30 @@ def run(ctx):
         oke = False
         chk.violation("R20.e", ca_raw, lim, f"the x limit `{lt[:60]}` is not `xlim if given else the schedule's makespan`", loc=ca.loc(setx[0]))
     lv = ast.unparse(lim)
-    last_tick = (f"xticks[-1]!={lv}" in src and (f"xticks.append({lv})" in src or f"xticks[-1]={lv}" in src))
+    # the tick list: what is handed to set_xticks (through plain aliases)
+    sxt = [n for n in nodes if isinstance(n, ast.Call) and isinstance(n.func, ast.Attribute) and n.func.attr == "set_xticks" and n.args]
+    tick_names = set()
+    cdefs = ctx.flow.defs(ca)
+    for c in sxt:
+        a = c.args[0]
+        for _ in range(4):
+            if isinstance(a, ast.Name):
+                tick_names.add(a.id)
+                ds = [d for d in cdefs.of(a.id) if d[0] == "value"]
+                if len(ds) == 1 and isinstance(ds[0][1], ast.Name):
+                    a = ds[0][1]
+                    continue
+            break
+    last_tick = False
+    for T in tick_names:
+        differs = f"{T}[-1]!={lv}" in src or f"{lv}!={T}[-1]" in src or f"not{T}[-1]=={lv}" in src or f"not{lv}=={T}[-1]" in src
+        if differs and (f"{T}.append({lv})" in src or f"{T}[-1]={lv}" in src):
+            last_tick = True
     if not last_tick:
         oke = False
         chk.violation("R20.e", ca_raw, None, "the last tick is not forced to the axis limit")
     # no tick other than the limit is added by hand: set_xticks widens the view
     # to show every tick, so a tick beyond a requested xlim moves the axis end
-    sxt = [n for n in nodes if isinstance(n, ast.Call) and isinstance(n.func, ast.Attribute) and n.func.attr == "set_xticks" and n.args]
-    tick_names = {a.id for c in sxt for a in c.args[:1] if isinstance(a, ast.Name)}
     for n in nodes:
         if not (isinstance(n, ast.Call) and isinstance(n.func, ast.Attribute) and isinstance(n.func.value, ast.Name) and n.func.value.id in tick_names):
             continue
